@@ -171,7 +171,13 @@ var corpus = []func(o *hx.Out, k int){
 		h.gcl(4)
 		h.checkRetained(h.m.View(), true)
 	},
-	// 9: TWIN SUB-TRIES (seed C11-m7): a sub-trie (branch + extension + leaves) exists under 31…; after a
+	// 9, 10: BYTE BOUNDARIES of the stored height (seed C11-m8): nodes deactivated at 256 must survive
+	// GC(255) (the root of 255 stays readable) and go with GC(256); nodes deactivated at 255 go with
+	// GC(255); the same around 65535 / 65536 — a bytewise comparison of the little-endian height
+	// gets both wrong
+	func(o *hx.Out, k int) { corpusBoundary(o, k, 254) },
+	func(o *hx.Out, k int) { corpusBoundary(o, k, 65534) },
+	// 11: TWIN SUB-TRIES (seed C11-m7): a sub-trie (branch + extension + leaves) exists under 31…; after a
 	// restart (empty refcount map) the identical sub-trie is created under 51… — its branch / extension
 	// nodes are already in the store, their counters must go 1 -> 2 —; then one reference is removed:
 	// the nodes must survive with count 1 and the other copy must stay readable; collection, restart,
@@ -192,7 +198,7 @@ var corpus = []func(o *hx.Out, k int){
 		h.block(4, B("3101=aa", "3102=bb", "3112=cc"))
 		h.checkRetained(h.m.View(), true)
 	},
-	// 10: regression for bb76634 (the residual of 956252a, now repaired): a leaf at three positions, restart (the trie is re-loaded lazily, the
+	// 12: regression for bb76634 (the residual of 956252a, now repaired): a leaf at three positions, restart (the trie is re-loaded lazily, the
 	// refcount entry of the leaf gets the STORE's slice as its bytes when the second copy is
 	// resolved: trie.go getFromStore), two copies removed in one block: updateRefCount appends the
 	// suffix to that slice and the stored counter changed (3 -> 1) before the block was committed;
@@ -206,7 +212,7 @@ var corpus = []func(o *hx.Out, k int){
 		h.block(2, B("7101=del"))
 		h.checkRetained(h.m.View(), true)
 	},
-	// 11: state jump (seed C11-m5): a module at genesis is cleaned, the sync point's trie (a leaf at
+	// 13: state jump (seed C11-m5): a module at genesis is cleaned, the sync point's trie (a leaf at
 	// three positions) restored with a persist before every node and JumpToState; the next block
 	// removes two copies and a key: in ModeGC the dropped nodes must be marked inactive with the
 	// height, the sync point's root stays readable; collection, restart, more blocks; a replica that
@@ -233,10 +239,26 @@ var corpus = []func(o *hx.Out, k int){
 		h.cmpReplica(p)
 		h.checkRetained(h.m.View(), true)
 	},
-	// 12, 13: state-sync restore of a trie with the same sub-trie at two paths, flushed to a copying
+	// 14, 15: state-sync restore of a trie with the same sub-trie at two paths, flushed to a copying
 	// persistent layer before every restoration; then copies are removed and everything is read
 	func(o *hx.Out, k int) { corpusRestore(o, k, "copy") },
 	func(o *hx.Out, k int) { corpusRestore(o, k, "bolt") },
+}
+
+func corpusBoundary(o *hx.Out, k int, base uint32) {
+	m := newModM("gc")
+	defer m.Close()
+	h := newHist(o, k, "gc", m)
+	h.probes = probes("1201", "1202", "1301", "77")
+	h.block(base, B("1201=aa", "1202=bb", "1301=cc"))
+	h.block(base+1, B("1202=del"))          // deactivated at 255 / 65535
+	h.block(base+2, B("1301=del", "77=ee")) // deactivated at 256 / 65536
+	h.block(base+3, B("1201=dd"))           // deactivated at 257 / 65537
+	h.gc(base + 1)                          // G = 255: what was deactivated at 256 is needed by the root of 255
+	h.gcl(base + 1)
+	h.block(base+4, B("77=del"))
+	h.gc(base + 2)
+	h.checkRetained(h.m.View(), true)
 }
 
 func corpusRestore(o *hx.Out, k int, lower string) {
